@@ -65,6 +65,12 @@ def nontrivial(j, o):
 def run(ctx):
     engine_check.standard_run(ctx, PROFILE, MONITORS, nontrivial, RULE, n_quick=160, n_thorough=3000, length=25,
                               builder="props.c08.builder")
+    # scripted batches: [read or refused item on O; item that commits elsewhere] and [attribute operation variant on O;
+    # commit elsewhere; read]: what a reading or failing item did to the session must not be committed by its successor
+    engine_check.scenario_run(ctx, "scen_engine.read_commit_builder", MONITORS + [M.mon_c05], nontrivial, RULE, 16, 300, 16,
+                              "read_then_commit_part", seed_base=810000)
+    engine_check.scenario_run(ctx, "scen_engine.attr_commit_builder", MONITORS, nontrivial, RULE, 16, 300, 14,
+                              "attribute_op_then_commit_part", seed_base=820000)
 
 
 def search(ctx, broken):
